@@ -96,7 +96,7 @@ def enum_grid(tier: str):
     for dtype in TEXT_DTYPES + CAT_DTYPES + NUM_DTYPES:
         for mat in ("pandas", "narwhals", "arrow"):
             for output in ("pandas", "numpy", "sparse"):
-                for usage in ("alone", "interaction", "nulls", "two"):
+                for usage in ("alone", "interaction", "nulls", "two", "wrapped"):
                     yield {"dtype": dtype, "mat": mat, "output": output, "usage": usage, "levels": LEVELS, "vals": VALS}
 
 
@@ -108,7 +108,7 @@ def gen_random(rng: random.Random, tier: str) -> dict:
     rng.shuffle(vals)
     return {"dtype": rng.choice(TEXT_DTYPES[:6] + ["category", "category_unsorted", "category_ordered", "category_unused"]),
             "mat": rng.choice(["pandas", "narwhals", "arrow"]), "output": rng.choice(["pandas", "numpy", "sparse"]),
-            "usage": rng.choice(["alone", "interaction", "nulls"]), "levels": levels, "vals": vals}
+            "usage": rng.choice(["alone", "interaction", "nulls", "wrapped"]), "levels": levels, "vals": vals}
 
 
 def judge(case) -> Outcome:
@@ -123,6 +123,10 @@ def judge(case) -> Outcome:
     n = len(vals)
     with_null = usage == "nulls"
     is_num = dtype in NUM_DTYPES
+    if is_num and usage == "wrapped":  # C() makes numeric data categorical by construction: not this property's pass-through case
+        out.decided = False
+        out.sig = None
+        return out
     try:
         if is_num:
             col = make_num(dtype, n, with_null)
@@ -146,7 +150,7 @@ def judge(case) -> Outcome:
         except Exception:  # noqa: BLE001
             out.decided = False
             return out
-    f = {"alone": "0 + V", "interaction": "0 + V:num", "nulls": "0 + V", "two": "0 + V + W"}[usage]
+    f = {"alone": "0 + V", "interaction": "0 + V:num", "nulls": "0 + V", "two": "0 + V + W", "wrapped": "0 + C(V)"}[usage]
     tag = f"dtype={dtype} mat={mat} out={output} usage={usage} levels={case['levels']}"
     try:
         with quiet():
@@ -190,7 +194,7 @@ def judge(case) -> Outcome:
             m = {lv: i * 10 for i, lv in enumerate(case["levels"])}
             vals = [m[v] for v in vals]
             levels = sorted({m[v] for i, v in enumerate(case["vals"]) if not (with_null and i == 1)})
-    exp_names = [f"V[{lv}]" for lv in levels]
+    exp_names = [f"V[{lv}]" for lv in levels] if usage != "wrapped" else [f"C(V)[{lv}]" for lv in levels]
     ind = np.array([[1.0 if vals[i] == lv else 0.0 for lv in levels] for i in keep]).reshape(len(keep), len(levels))
     if usage == "interaction":
         exp_names = [f"{nm}:num" for nm in exp_names]
@@ -211,5 +215,5 @@ def judge(case) -> Outcome:
 PINNED = []
 SUBS = {
     "grid": Sub(judge=judge, enum=enum_grid, min_decided=600),
-    "random_levels": Sub(judge=judge, gen=gen_random, quick=1500, thorough=100_000, min_decided=300),
+    "random_levels": Sub(judge=judge, gen=gen_random, quick=6000, thorough=100_000, min_decided=300),
 }
